@@ -11,6 +11,14 @@ TRUST = (
 
 # pid -> dict(technique, text, note, design_ref)
 CLAIMED = {
+    "C01": dict(
+        technique="static analysis: lexer totality over every dialect's resolved matcher table via regex ASTs (first-character / nullability abstraction), def-use wiring of LXR reporting",
+        text="Decides (exhaustively over the 28 bundled dialects) that every character outside the last-resort matcher's class is consumed by some matcher that cannot "
+        "return an empty match and that the last-resort matcher takes everything else, so lexing can neither drop a character nor reach its fatal raise; and that "
+        "unlexable segments are turned into LXR errors without any filter on the way from violations_from_segments through PyLexer.lex to _lex_templated_file.",
+        note="Does not decide that tokens concatenate to the rendered text or that positions are contiguous (run-time slice arithmetic). Patterns the stdlib regex parser cannot read are over-approximated or 'unknown' (counted, capped). " + TRUST,
+        design_ref="DESIGN.md §3 C01",
+    ),
     "C05": dict(
         technique="static analysis: loop-bound inference for index-advancing scans, reviewed table of next()/index() sites with dominance-checked guards, shape of the exception-to-violation handler in BaseRule.crawl",
         text="Decides the absence of two shapes of latent IndexError/StopIteration/ValueError in rule and reflow code: every index-advancing while/count() scan "
